@@ -818,6 +818,79 @@ def pickle_tie(ctx):
             if m.get('pk') != real['pk'] or m.get('deleted') != real['deleted'] or (not real['deleted'] and mv != dict(map(tuple, real['vals']))):
                 ctx.divergence('model unpickle and the real unpickle_entity/_db_set_ disagree', {'scenario': info, 'request': req}, model=m, impl=real)
 
+def result_pickle_oracle(ctx):
+    """every flavour of query / query result — Query, eager slice, lazy page(n) / limit(k, offset=m) results, each pickled before
+    and after something materialised it, entity results and projections — pickled in one db_session and unpickled in another:
+    the rows (in order) and their attribute values must be those of the result's own window of the full ordered result.
+    The Lean model (getstateRows) predicts the rows; an exception from the real code is a verdict, never a crash."""
+    rng = ctx.rng
+    reqs = []; cases = []
+    for rd in range(ctx.scale(6, 60)):
+        db = Database()
+        ns = {}
+        exec('class Row(db.Entity):\n    id = PrimaryKey(int)\n    v = Required(int)\n    s = Optional(str)\n', dict(db=db, PrimaryKey=PrimaryKey, Required=Required, Optional=Optional), ns)
+        Row = ns['Row']; register([Row])
+        db.bind('sqlite', ':memory:'); db.generate_mapping(create_tables=True)
+        n = rng.choice([0, 1, 3, 6, 9, 13])
+        data = [(i, rng.choice([0, 1, 5, 5, 9]), rng.choice(['', 'a', 'b,*'])) for i in range(1, n + 1)]
+        with db_session:
+            for i, v, s_ in data: Row(id=i, v=v, s=s_)
+        for _ in range(ctx.scale(8, 14)):
+            proj = rng.random() < 0.4
+            desc_ = rng.random() < 0.3
+            cond = rng.choice([None, 'v>0'])
+            full = [r for r in (sorted(data, reverse=desc_)) if cond is None or r[1] > 0]
+            def mk():
+                q = select((r.id, r.v) for r in Row) if proj else select(r for r in Row)
+                if cond: q = q.filter(lambda r: r.v > 0) if not proj else q.filter(lambda id, v: v > 0)
+                if proj: return q.order_by(-1) if desc_ else q.order_by(1)
+                return q.order_by(core.desc(Row.id)) if desc_ else q.order_by(Row.id)
+            flavour = rng.choice(['Query', 'slice', 'page', 'page', 'limit', 'limit', 'limit'])
+            mat = rng.random() < 0.5
+            lim = off = None
+            try:
+                with db_session:
+                    q = mk()
+                    if flavour == 'Query': obj = q; mat = False
+                    elif flavour == 'slice':
+                        a = rng.choice([0, 0, 1, 2, 5]); b = a + rng.choice([0, 1, 2, 4]); obj = q[a:b]; lim, off = b - a, a; mat = True
+                    elif flavour == 'page':
+                        pn = rng.choice([1, 2, 2, 3, 4]); ps = rng.choice([1, 2, 3, 5]); obj = q.page(pn, ps); lim, off = ps, (pn - 1) * ps
+                    else:
+                        lim = rng.choice([None, 0, 1, 2, 3, 7]); off = rng.choice([None, 0, 1, 2, 4, 20]); obj = q.limit(lim, offset=off)
+                    if mat and flavour in ('page', 'limit'):
+                        if rng.random() < 0.5: len(obj)
+                        else: list(obj)
+                    blob = pickle.dumps(obj, protocol=rng.choice([2, pickle.HIGHEST_PROTOCOL]))
+                with db_session:
+                    res = pickle.loads(blob)
+                    got = [list(x) if proj else [x.id, x.v, x.s] for x in res]
+                    glen = len(res)
+            except Exception as e:
+                got = 'raised %s: %s' % (type(e).__name__, str(e)[:120]); glen = None
+            o = off or 0
+            win = full[o:] if lim is None else full[o:o + lim]
+            exp = [[r[0], r[1]] for r in win] if proj else [list(r) for r in win]
+            desc = {'rows': n, 'query': ('select((r.id, r.v) for r in Row)' if proj else 'select(r for r in Row)') + ('.filter(v > 0)' if cond else '') + (('.order_by(-1)' if desc_ else '.order_by(1)') if proj else ('.order_by(desc(Row.id))' if desc_ else '.order_by(Row.id)')),
+                    'pickled': 'the Query' if flavour == 'Query' else 'q[%s:%s]' % (off, (off or 0) + (lim or 0)) if flavour == 'slice' else 'q.page(%s, %s)' % (((off or 0) // lim + 1) if lim else None, lim) if flavour == 'page' else 'q.limit(%s, offset=%s)' % (lim, off),
+                    'materialised_before_pickling': mat}
+            ctx.case(['result-pickle', desc], kind='oracle:result-pickle:%s:%s' % (flavour, 'materialised' if mat else 'lazy'), nontrivial=bool(exp))
+            ctx.count('result-pickle:%s:offset%s' % ('projection' if proj else 'entities', '>0' if o else '=0'))
+            if got != exp or (glen is not None and glen != len(exp)):
+                ctx.violation('a pickled query result unpickled in another db_session does not have the rows / attribute values of the result',
+                              desc, observed=got, expected=exp, key='result-pickle:%s:%s:%s' % (flavour, 'materialised' if mat else 'lazy', 'offset>0' if o else 'offset=0') if not isinstance(got, str) else 'result-pickle:%s:%s' % (flavour, got.split(':')[0]))
+            reqs.append({'op': 'getstate_rows', 'full': [r[0] for r in full], 'limit': lim, 'offset': off, 'materialised': mat})
+            cases.append((desc, [r[0] for r in win], got))
+        db.disconnect()
+    if ctx.driver.ok:
+        outs = ctx.driver('C31', reqs)
+        for req, (desc, win, got), o in zip(reqs, cases, outs):
+            ctx.case(['result-pickle-model', req], kind='tie:result-pickle')
+            if o.get('ok') != win:
+                ctx.divergence('model getstateRows and the window of the ordered result disagree', {'request': req}, model=o, impl=win)
+            elif isinstance(got, list) and [g[0] for g in got] != o['ok']:
+                ctx.divergence('model getstateRows and the rows of the real unpickled result disagree', {'case': desc, 'request': req}, model=o['ok'], impl=[g[0] for g in got])
+
 def state_oracle(ctx):
     rng = ctx.rng
     decode_queue = []
@@ -881,6 +954,7 @@ def run(ctx):
     witnesses(ctx)
     attrs_tie(ctx)
     pickle_tie(ctx)
+    result_pickle_oracle(ctx)
     state_oracle(ctx)
 
 def replay(ctx, data):
